@@ -800,3 +800,90 @@ Qed.
 Lemma any_nonzero_imap2d (F : nat -> nat -> bool -> R) m y x b :
   In (y, x, b) (cells m) -> F y x b <> 0 -> @any_nonzero ROps (imap2d F m) = true.
 Proof. intros. unfold any_nonzero. eapply (any_nonzero_imap_from F m 0); eassumption. Qed.
+
+(* ------------------------------------------------------------------ one level of the iteration *)
+Definition Lev (f : RR -> R) (ps og : RR) (H W s : nat) (p : nat * nat) : R :=
+  @mean ROps (map f (@block ROps ps (@pixel_centre ROps H W ps og p) s)).
+Definition Lev0 (f : RR -> R) (ps og : RR) (H W : nat) (p : nat * nat) : R := f (@pixel_centre ROps H W ps og p).
+
+Lemma combine_repeat {A} (l : list A) (s : nat) : combine l (repeat s (length l)) = map (fun a => (a, s)) l.
+Proof. induction l; cbn; congruence. Qed.
+Lemma spec_via_func_repeat (f : RR -> R) mk (ps og : RR) s :
+  @spec_via_func ROps f mk ps og (repeat s (length (unmasked mk))) = map (Lev f ps og (shape0 mk) (shape1 mk) s) (unmasked mk).
+Proof.
+  unfold spec_via_func. rewrite <- (spec_centres_length mk ps og), combine_repeat, map_map. unfold spec_centres. rewrite map_map.
+  reflexivity.
+Qed.
+
+Lemma array_at_sub_size_imap (f : RR -> R) (ps og : RR) (T : nat -> nat -> bool -> bool) m s :
+  (1 <= s)%nat -> ps_okR ps ->
+  @array_at_sub_size ROps f ps og (imap2d T m) s
+  = imap2d (fun y x b => if T y x b then 0 else Lev f ps og (shape0 m) (shape1 m) s (y, x)) m.
+Proof.
+  intros Hs Hps. unfold array_at_sub_size, full_sub_size. rewrite pixels_in_mask_length.
+  rewrite via_func_is_block_means; [|split; [apply repeat_length|apply subs_ok_repeat; exact Hs]|exact Hps].
+  rewrite spec_via_func_repeat, to_native_imap2d, imap2d_shape0, imap2d_shape1, imap2d_imap2d. reflexivity.
+Qed.
+
+(* the threshold test of one unmasked, not yet resolved pixel = the agreement predicate of the rule *)
+Definition thr_okR (thr : option R) : Prop := match thr with Some t => 0 < t | None => True end.
+
+Lemma frac_acc_agrees (t lower higher : R) : 0 < t ->
+  negb (Rltb (@fractional_accuracy_of ROps lower higher) t)
+  = Rltb 0 lower && Rleb t (@minT ROps lower higher / @maxT ROps lower higher).
+Proof.
+  intros Ht. unfold fractional_accuracy_of, minT, maxT, zero, one. cbn [ltb leb eqb div ofZ ROps T].
+  destruct (Rltb 0 lower) eqn:E0; rbool; cbn [andb].
+  2:{ destruct (Rltb 0 t) eqn:E; rbool; [reflexivity|lra]. }
+  destruct (Reqb higher 0) eqn:E1; rbool.
+  - subst higher. destruct (Rltb 0 lower) eqn:E2; rbool; [|lra]. destruct (Rltb lower 0) eqn:E3; rbool; [lra|].
+    destruct (Rltb 0 t) eqn:E4; rbool; [|lra]. cbn [negb].
+    destruct (Rleb t (0 / lower)) eqn:E5; rbool; [|reflexivity]. unfold Rdiv in E5. rewrite Rmult_0_l in E5. lra.
+  - assert (Hq : lower / higher * higher = lower) by (field; assumption).
+    destruct (Rltb higher lower) eqn:E2; destruct (Rltb lower higher) eqn:E3; rbool; try lra.
+    + (* higher < lower *)
+      destruct (Rlt_dec 0 higher) as [Hp|Hn].
+      * assert (H1 : 1 < lower / higher) by (apply (Rmult_lt_reg_r higher); [assumption|lra]).
+        destruct (Rltb 1 (lower / higher)) eqn:E4; rbool; [|lra].
+        replace (1 / (lower / higher)) with (higher / lower) by (field; split; lra).
+        destruct (Rltb (higher / lower) t) eqn:E5; destruct (Rleb t (higher / lower)) eqn:E6; rbool; try reflexivity; lra.
+      * assert (Hneg : higher < 0) by lra.
+        assert (H1 : lower / higher < 0).
+        { apply (Rmult_lt_reg_r (- higher)); [lra|]. rewrite Rmult_0_l. nra. }
+        destruct (Rltb 1 (lower / higher)) eqn:E4; rbool; [lra|].
+        assert (H2 : higher / lower < 0).
+        { apply (Rmult_lt_reg_r lower); [lra|]. rewrite Rmult_0_l. replace (higher / lower * lower) with higher by (field; lra). lra. }
+        destruct (Rltb (lower / higher) t) eqn:E5; destruct (Rleb t (higher / lower)) eqn:E6; rbool; try reflexivity; lra.
+    + (* lower < higher *)
+      assert (Hp : 0 < higher) by lra.
+      assert (H1 : lower / higher < 1) by (apply (Rmult_lt_reg_r higher); [assumption|lra]).
+      destruct (Rltb 1 (lower / higher)) eqn:E4; rbool; [lra|].
+      destruct (Rltb (lower / higher) t) eqn:E5; destruct (Rleb t (lower / higher)) eqn:E6; rbool; try reflexivity; lra.
+    + (* equal *)
+      assert (higher = lower) by lra. subst higher.
+      replace (lower / lower) with 1 by (field; lra).
+      destruct (Rltb 1 1) eqn:E4; rbool; [lra|].
+      destruct (Rltb 1 t) eqn:E5; destruct (Rleb t 1) eqn:E6; rbool; try reflexivity; lra.
+Qed.
+
+Lemma threshold_pixel_masked (thr rel : option R) lower higher : @threshold_pixel ROps thr rel true lower higher = true.
+Proof. unfold threshold_pixel. destruct thr, rel; reflexivity. Qed.
+Lemma threshold_pixel_agrees (thr rel : option R) lower higher : thr_okR thr ->
+  @threshold_pixel ROps thr rel false lower higher = @agrees ROps thr rel lower higher.
+Proof.
+  intros Ht. unfold threshold_pixel, agrees. cbn [negb andb].
+  assert (B : forall r, (if Rltb r (@absT ROps (lower - higher)) then false else true) = Rleb (@absT ROps (lower - higher)) r).
+  { intros r. destruct (Rltb r _) eqn:E1; destruct (Rleb _ r) eqn:E2; rbool; try reflexivity; lra. }
+  destruct thr as [t|].
+  - cbn in Ht. pose proof (frac_acc_agrees t lower higher Ht) as F. unfold zero. cbn [ltb leb div sub ofZ ROps T] in *.
+    rewrite <- F. destruct rel as [r|].
+    + rewrite <- B. destruct (Rltb r _), (Rltb _ t); reflexivity.
+    + destruct (Rltb _ t); reflexivity.
+  - cbn [ltb leb div sub ofZ ROps T andb]. destruct rel as [r|]; [|reflexivity]. rewrite <- B. destruct (Rltb r _); reflexivity.
+Qed.
+
+Lemma rule_cons (thr rel : option R) prev v w rest :
+  @rule ROps thr rel prev (v :: w :: rest) = if @agrees ROps thr rel prev v then v else @rule ROps thr rel v (w :: rest).
+Proof. reflexivity. Qed.
+Lemma rule_single (thr rel : option R) prev v : @rule ROps thr rel prev [v] = v.
+Proof. reflexivity. Qed.
